@@ -8,9 +8,9 @@ left behind and printed.
 import os, re, shutil, subprocess
 from bbox import Sandbox, Rng, hexs, HOST
 
-NAMES = ["a", "b.txt", "sp ace", "quo'te", 'dq"uote', "back\\slash", "dol$lar", "st*ar", "qm?ark", "-dash", "unié中",
+NAMES = ["a", "b.txt", "sp ace", "quo'te", "the 'final' draft", "''", "a'b'c.txt", "it\\'s", "x\\", "\\'\\'", 'dq"uote', "back\\slash", "dol$lar", "st*ar", "qm?ark", "-dash", "unié中",
          "new\nline", "tab\tname", "semi;colon", "amp&ersand", "paren(s)", "a.copia", "x.tmp", "[br]", "~tilde", "#hash", "%p", "$(echo x)", "`bt`"]
-DIRS = ["", "d", "d/e", "sp dir", "q'd", "d.d", "-x"]
+DIRS = ["", "d", "d/e", "sp dir", "q'd", "q'd'q", "d.d", "-x"]
 EXCL = ["*.tmp", "d", "d/*", "sp*", "*'*", "a", "?", "x.tmp/", "*\\*", "d/e/", "b.txt"]
 CONTENT = [b"", b"x", b"hello\n", b"A" * 1000, b"\x00\x01\x02", b"line1\nline2\n", bytes(range(256)) * 20]
 
@@ -284,6 +284,16 @@ def run(pid, tier, seed, rundir, model_run):
                 res["violations"].append((key, "exit 0 but the destination is not: transferred files = source bytes + whole-second mtime, skipped files untouched, deletes only with --delete", dict(rep, model=mo[:1500])))
         else:
             count("nonzero-exit")
+            # "if the exit status is non-zero … still nothing outside that plan (other than reserved staging names) has been touched"
+            def unhexp(tok):
+                return [] if tok == "-" else [bytes.fromhex(x).decode("utf-8", "surrogateescape") for x in tok.split(",")]
+            allowed = set(unhexp(mm.group(2))) | set(unhexp(mm.group(4)))
+            d_before = dict(x.split("=") for x in q.split(" ")[4].split(";")) if q.split(" ")[4] != "-" else {}
+            d_after = dict(x.split("=") for x in im_m.group(2).split(";")) if im_m.group(2) != "-" else {}
+            touched = [bytes.fromhex(k).decode("utf-8", "surrogateescape") for k in set(d_before) | set(d_after) if d_before.get(k) != d_after.get(k)]
+            bad = [t for t in touched if t not in allowed and not t.endswith(".copia-tmp")]
+            if bad:
+                res["violations"].append(("nonzero-exit-touched-outside-plan", f"the run failed (rc {im_m.group(1)}) and touched {bad[:4]} which are neither in transfer nor in delete", dict(rep, model=mo[:1500])))
     if ndis:
         res["broken"].append(f"{pid}/corr: model and implementation disagree on {ndis} of {len(ops)} runs")
     res.update(evaluations=len(ops), distinct_nontrivial=len({q for q in ops if q.count("=") >= 2}), n_disagreements=ndis,
